@@ -30,12 +30,12 @@ type postCond struct {
 
 type relEngine struct {
 	threadDepth int
-	c     *Ctx
-	f     *ssa.Function
-	fe    *formEval
-	re    *rangeEval
-	posts map[*ssa.Function]*postCond
-	lows  map[string]int64 // lower bounds of atoms established by post-conditions (valid wherever the atom is used after the success test)
+	c           *Ctx
+	f           *ssa.Function
+	fe          *formEval
+	re          *rangeEval
+	posts       map[*ssa.Function]*postCond
+	lows        map[string]int64 // lower bounds of atoms established by post-conditions (valid wherever the atom is used after the success test)
 }
 
 func newRelEngine(c *Ctx, f *ssa.Function, posts map[*ssa.Function]*postCond) *relEngine {
